@@ -5,6 +5,7 @@ package main
 
 import (
 	"sort"
+	"strings"
 )
 
 type instCtx struct {
@@ -309,6 +310,83 @@ func (ic *instCtx) rewrite(t *Term, pol bool, qc map[*Term]bool, depth int) *Ter
 	return tb.False()
 }
 
+// propagateEqualities substitutes x := t for every top-level hypothesis conjunct (= x t) in which x is a variable
+// introduced by the generator (callee results, havoc values) and does not occur in t.
+func (e *Engine) propagateEqualities(hyps []*Term) []*Term {
+	tb := e.tb
+	occurs := func(x, t *Term) bool {
+		seen := map[*Term]bool{}
+		var rec func(u *Term) bool
+		rec = func(u *Term) bool {
+			if u == x {
+				return true
+			}
+			if seen[u] {
+				return false
+			}
+			seen[u] = true
+			for _, a := range u.Args {
+				if rec(a) {
+					return true
+				}
+			}
+			return false
+		}
+		return rec(t)
+	}
+	isGen := func(x *Term) bool {
+		if x.Op != "var" {
+			return false
+		}
+		n := x.Name
+		return strings.HasPrefix(n, "r!") || strings.HasPrefix(n, "hv_") || strings.HasPrefix(n, "apcap!") || strings.HasPrefix(n, "phi!") == false && strings.Contains(n, "!") && !strings.HasPrefix(n, "p!") && !strings.HasPrefix(n, "sk!") && !strings.HasPrefix(n, "ra!") && !strings.HasPrefix(n, "ha!") && !strings.HasPrefix(n, "ba!")
+	}
+	for iter := 0; iter < 200; iter++ {
+		var x, t *Term
+		idx := -1
+		for i, h := range hyps {
+			var conj []*Term
+			if h.Op == "and" {
+				conj = h.Args
+			} else {
+				conj = []*Term{h}
+			}
+			for _, c := range conj {
+				if c.Op != "=" || c.Args[0].Sort.Kind == SArr && false {
+					continue
+				}
+				a, b := c.Args[0], c.Args[1]
+				if isGen(a) && !occurs(a, b) {
+					x, t = a, b
+				} else if isGen(b) && !occurs(b, a) {
+					x, t = b, a
+				}
+				if x != nil {
+					break
+				}
+			}
+			if x != nil {
+				idx = i
+				break
+			}
+		}
+		if x == nil {
+			break
+		}
+		_ = idx
+		m := map[*Term]*Term{x: t}
+		out := make([]*Term, 0, len(hyps))
+		for _, h := range hyps {
+			nh := tb.Subst(h, m)
+			if !nh.IsTrue() {
+				out = append(out, nh)
+			}
+		}
+		hyps = out
+	}
+	return hyps
+}
+
 // Prepare returns quantifier-free hypotheses (the negated goal included) for obligation o.
 func (e *Engine) PrepareQF(o *Obligation) []*Term {
 	tb := e.tb
@@ -319,6 +397,7 @@ func (e *Engine) PrepareQF(o *Obligation) []*Term {
 	} else if o.Goal != nil {
 		all = append(all, o.Goal)
 	}
+	all = e.propagateEqualities(all)
 	qc := map[*Term]bool{}
 	// pass 0: skolems and ground terms
 	vis := map[*Term]bool{}
@@ -327,7 +406,8 @@ func (e *Engine) PrepareQF(o *Obligation) []*Term {
 	}
 	// two rounds: instances of round 1 feed the pool for round 2
 	var out []*Term
-	for round := 0; round < 2; round++ {
+	prevSize := -1
+	for round := 0; round < 9; round++ {
 		out = out[:0]
 		ic.bailed = false
 		for _, h := range all {
@@ -337,6 +417,21 @@ func (e *Engine) PrepareQF(o *Obligation) []*Term {
 		for _, h := range out {
 			ic.collect(h, vis)
 		}
+		// fixpoint: no new candidate terms were produced by this round's instances
+		size := 0
+		for _, p := range ic.pool {
+			size += len(p)
+		}
+		for _, p := range ic.mulPool {
+			size += len(p)
+		}
+		for _, p := range ic.appArgs {
+			size += len(p)
+		}
+		if size == prevSize && round >= 1 {
+			break
+		}
+		prevSize = size
 	}
 	// deterministic order of pools is given by traversal order; nothing else to do
 	_ = sort.Strings
